@@ -59,7 +59,12 @@ def case_strategy(draw, big=False):
         for i in range(draw(st.integers(1, 2))):
             l = draw(gen.lumped_load(kinds=('z', 'z', 'rlc', 'trap')))
             at = []
-            for j in range(draw(st.integers(2, 3))):
+            if (overlap or not taken) and draw(st.integers(0, 4)) == 0:
+                # the whole antenna in one statement
+                at = ['all']
+                taken.update(p.idx for p in topo.pulses)
+                free_objs = []
+            for j in range(0 if at else draw(st.integers(2, 3))):
                 form = draw(st.sampled_from(['all-obj', 'all-obj', 'abs', 'obj']))
                 cand_o = [o_ for o_ in free_objs if not any(p.idx in taken for p in topo.per_obj[o_])]
                 if overlap:
@@ -218,7 +223,10 @@ def check(case):
         for l, la in zip(lds, alt['loads']):
             idx = []
             for a in l['attach']:
-                if isinstance(a, dict) and a.get('all'):
+                if a == 'all':
+                    idx += [p.idx for p in topo.pulses]
+                    labels.append('attach-whole-antenna')
+                elif isinstance(a, dict) and a.get('all'):
                     w = [i for i, o in enumerate(robjs) if o['tag'] == a['tag']][0]
                     idx += [p.idx for p in topo.per_obj[w]]
                     labels.append('attach-all-object')
